@@ -95,11 +95,11 @@ CLAIMS = {
             "Trusts chia_sha2 and Python's hashlib; `intern` delegates to the object cache.",
             "DESIGN.md 4/C22"),
     "C23": ("static cost arithmetic: abstract interpretation of CLVM's cost rules on the fixed ChiaLisp program over an abstract tree, constants extracted from source, coefficient-wise inequalities",
-            "Proof by closed forms: lisp(tree) = S + sum_atoms(A + B*len) + sum_pairs P is DERIVED from the program bytes embedded in the repository and the current constants (it reproduces the four CLVM figures printed in docs/sha256tree.md exactly), native(tree) likewise from its constants; B' <= B, A' <= A, P' < P, S'+A' < S+A imply native < lisp for every tree; discharged for both cost models (8 obligations + shape + 4 cross-checks).",
+            "Proof by closed forms: lisp(tree) = S + sum_atoms(A + B*len) + sum_pairs P is DERIVED from the program bytes embedded in the repository and the current constants (it reproduces the four CLVM figures printed in docs/sha256tree.md exactly), native(tree) = BASE + sum_atoms (len+1)*RATE + sum_pairs PAIR + 32*MALLOC is DERIVED from the MIR of tree_hash_costed (R23n: exactly one cost update per node kind, in the work loop only, RATE selected by NEW_COST_MODEL only); B' <= B, A' <= A, P' < P, S'+A' < S+A imply native < lisp for every tree; discharged for both cost models (8 obligations + shape + 4 cross-checks).",
             "Trusted base: the 80-line cost-rule interpreter in rules/c23.py (which constant is charged for quote/apply/op call/path lookup/cons/listp/if/sha256 - pinned against the code by C02 and C10), constant extraction by the driver, the embedded program bytes.",
             "DESIGN.md 4/C23"),
-    "C27": ("ownership/liveness rule over elaborated MIR: address-exposing casts (PointerExposeProvenance) vs. moves into owners that outlive the loop, with bool-specialised reachability",
-            "Decides that every object whose address is used as a map key is kept alive on every path (T8): the necessary condition whose absence corrupted 119/200 random trees before the fix. Not that the produced tree equals the source tree.",
+    "C27": ("ownership/liveness rule over elaborated MIR: address-exposing casts (PointerExposeProvenance) vs. moves into owners that outlive the loop, with bool-specialised reachability; structural key-provenance rule over the reconstructed expressions of every map lookup/insert, node construction and work-item push (names canonicalised by type)",
+            "Decides (R27) that every object whose address is used as a map key is kept alive on every path: the necessary condition whose absence corrupted 119/200 random trees before the fix; and (R27b) that each converted pair is built from the converted nodes of its own left and right child, in this order, de-duplicated and stored under exactly that key, recorded under its own address, atoms from their own bytes, children scheduled iff their own address is unknown, result = the node of the object passed in. Not that Python's attribute protocol returns consistent values.",
             "Trusts rustc's elaborated MIR (a moved local has no drop) and pyo3's Bound::clone being a strong reference.",
             "DESIGN.md 4/C27"),
     "C28": ("Python ast table extraction compared with tables extracted from Rust MIR (writer rows, decoder caps, wire constants)",
@@ -115,7 +115,7 @@ CLAIMS = {
             "Trusts rustc's MIR and std's HashMap entry API.",
             "DESIGN.md 4/C24"),
     "C25": ("in-bounds verifier for every indexing / slicing / division site reachable from run_program (lib/bounds.py: flow-sensitive symbolic values with reaching definitions, dominating and per-path branch facts, staleness analysis for mutable storage, linear prover with infeasible-path detection), typestate rule for the accessors that panic on pairs (match arms, !is_pair(), validator summaries, constructor results, recursive caller check over the resolved call graph), audited inventories of explicit panic sites (local guards checked by dominance) and InternalError constructions, SCC computation for recursion",
-            "Decides for all functions reachable from run_program (both dialects, every operator): each of the ~90 indexing and 5 division sites is proved in bounds from the code's own conditions (about 60 goals), or proved under the allocator's stated storage invariant (about 35, inside impl Allocator only), or relies on one of 17 audited invariants listed with their reason; every call of atom()/atom_len()/number()/atom_eq() is on a node known to be an atom; the 20 explicit panic sites and 15 InternalError constructions are the audited ones and a new one is reported; no recursion. Not decided: arithmetic overflow assertions (debug builds only), dependency crates, allocation failure, and that the audited stack-discipline invariants hold (C04/C31 decide the pairing).",
+            "Decides for all functions reachable from run_program (both dialects, every operator): each of the ~90 indexing and 5 division sites is proved in bounds from the code's own conditions (60 goals), or proved under the allocator's stated storage invariant (31, inside impl Allocator only), or relies on one of 18 audited invariants listed with their reason; every call of atom()/atom_len()/number()/atom_eq() is on a node known to be an atom; the 20 explicit panic sites and 15 InternalError constructions are the audited ones and a new one is reported; no recursion. Not decided: arithmetic overflow assertions (debug builds only), dependency crates, allocation failure, and that the audited stack-discipline invariants hold (C04/C31 decide the pairing).",
             "Sound-but-incomplete verifier: new indexing code that is safe for a reason the prover cannot see must be added to the audited table with its invariant. Trusts rustc's MIR, the purity list for accessor calls, and the audited invariants.",
             "DESIGN.md 4/C25"),
     "C26": ("normal-form comparison of every binding: the value each #[pyfunction] returns is reconstructed from MIR across `?`, map_err, borrows and closures (lib/inline.py) and compared with 'core function applied to the caller's parameters'; call inventory + &mut-borrow inventory (nothing else touches core state); flag-region rule for the heap limit; constant comparison of exported flags with the core's; Python ast rules for serde.py and Program.run_with_cost, parameterised by the Rust signatures",
